@@ -313,10 +313,15 @@ def fft(ctx, b):
     ntraj = T.app('len', traj)
     padlen = T.sub(NP, n)           # ([zero].repeat(k) and iter::repeat(zero).take(k) are both k copies of zero)
     elem = T.ite(T.cmp('lt', t, ntraj), T.app('adt:rustfft::num_complex::Complex', T.app('f:re', T.sub(index_term(traj, t), mean)), T.app('f:im', T.ZERO)), zero)
-    ctx.eq('C12.fft.centre', A, 'input', x0, mk_comp(T.add(ntraj, padlen), t, elem), sp=sp, why='mean-centred series followed by n_padded - n zeros')
-    sq = [ls for ls in ev.vf.loops if ls.kind == 'for' and ls.ctx == (cl.uid,)]
-    oksq = False
+    # the series length is n (a column of an (n, d) array) and n <= n_padded (C12.fft.pad): a buffer of n_padded zeros whose first
+    # min(n_padded, n) slots are overwritten is the same vector
+    same = {ntraj: n, T.app('min', *sorted([NP, n], key=T.key)): n, T.app('min', *sorted([NP, ntraj], key=T.key)): n}
+    norm = lambda x: T.subst(T.subst(x, same), same) if isinstance(x, T.Tm) else x
+    exp0 = mk_comp(T.add(ntraj, padlen), t, elem)
+    ctx.eq('C12.fft.centre', A, 'input', norm(x0), norm(exp0), alts=[mk_comp(NP, t, norm(elem))], sp=sp, why='mean-centred series followed by n_padded - n zeros')
     X1 = T.app('post1', procs[0].res)
+    sq = [ls for ls in ev.vf.loops if ls.kind == 'for' and ls.ctx == (cl.uid,) and any(ls.init.get(k_) is X1 for k_ in ls.lh)]
+    oksq = False
     if len(sq) == 1 and len(sq[0].lh) == 1:
         k = list(sq[0].lh)[0]
         lh = sq[0].lh[k]
